@@ -211,8 +211,37 @@ fn faulted<H: Hasher>(ch: &mut Chooser, ctx: &mut Ctx, cfg: Cfg) {
     };
     let mut proof = clone_bp(&honest);
     let mut idx = positions.clone();
-    let kind = ch.weighted("fault", &[4, 4, 2, 2, 2, 2, 2, 3, 3, 3, 3, 1, 2, 2, 4]);
+    let kind = ch.weighted("fault", &[4, 4, 2, 2, 2, 2, 2, 3, 3, 3, 3, 1, 2, 2, 4, 0, 3, 3]);
     let what: String = match kind {
+        16 => {
+            // many surplus digests at the end of one node vector: 1, 2 and both sides of the
+            // counts at which a one-byte counter wraps
+            let k = ch.index("f.vec", proof.nodes.len().max(1));
+            let m = [1usize, 2, 255, 256, 257, 512, 768][ch.index("f.many", 7)];
+            if proof.nodes.is_empty() {
+                proof.nodes.push(vec![]);
+            }
+            for i in 0..m {
+                proof.nodes[k].push(other_digest::<H>(salt ^ (1000 + i as u64)));
+            }
+            ctx.fault("surplus_nodes_appended_in_bulk");
+            format!("{m} surplus nodes appended to node vector {k}")
+        },
+        17 => {
+            // surplus claimed leaves without positions of their own: an arbitrary digest, a
+            // repetition of a claimed leaf, or another leaf of the tree
+            let m = 1 + ch.index("f.nleaves", 3);
+            for i in 0..m {
+                let l = match ch.index("f.leafkind", 3) {
+                    0 => other_digest::<H>(salt ^ (2000 + i as u64)),
+                    1 => proof.leaves[ch.index("f.rep", proof.leaves.len())],
+                    _ => leaves[ch.index("f.treeleaf", n)],
+                };
+                proof.leaves.push(l);
+            }
+            ctx.fault("surplus_claimed_leaves_appended");
+            format!("{m} surplus claimed leaves appended")
+        },
         0 => {
             let i = ch.index("f.leaf", proof.leaves.len());
             // a single flipped bit (every byte of the digest must be bound), or another digest
@@ -407,7 +436,7 @@ fn faulted<H: Hasher>(ch: &mut Chooser, ctx: &mut Ctx, cfg: Cfg) {
         Ok(Ok(())) => {
             // accepted: the claimed leaves at the queried in-range positions must be the committed ones
             let sound = proof.leaves.len() == idx.len() && idx.iter().zip(proof.leaves.iter()).all(|(p, l)| *p >= n || leaves[*p] == *l);
-            let shape_changed = proof.nodes != honest.nodes || proof.depth != honest.depth;
+            let shape_changed = proof.nodes != honest.nodes || proof.depth != honest.depth || proof.leaves.len() != honest.leaves.len();
             if !sound {
                 ctx.violation(
                     format!("C10/wrong-leaf-accepted {fkind}"),
@@ -728,7 +757,7 @@ pub fn spec() -> CheckSpec {
         id: "C10",
         level: "fault_enumeration",
         build: "serial (+ overflow-checking build for one arm, concurrent build under SimRayon for one arm)",
-        rule: "fault-free arm, enumerated completely: for trees of 2, 4, 8 and 16 leaves EVERY non-empty position set (3 + 15 + 255 + 65535 per hasher; quick: 2 hashers, thorough: all 6), half of the runs with a taped permutation of the position list: prove_batch / verify_batch / get_root, claimed leaves in list order, into_paths equal to the single openings (each verified), from_paths back to the batch opening. Fault arm, sampled: trees of depth 1..10, 1..255 positions with adjacency patterns (siblings, cousins, all-left, right edge), sorted or not, then one fault on the opening or the position list in transit (15 kinds; a changed leaf or node is either another digest or the same digest with a single bit flipped at any byte, incl. the coordinated 'one more position with an arbitrary claimed leaf'); the same arm also runs in the overflow-checking build inside an isolated worker. Oracle: Ok => every claimed leaf at a queried in-range position equals the committed leaf and the shape is the honest one; never a panic. Scheduled-construction arm (concurrent build, isolated worker): trees of 1024..8192 leaves built by MerkleTree::new under a simulator-chosen pool size (1..64) and task schedule; the root must equal the level-by-level merge of the leaves and the tree's single and batch openings must verify against it. Non-trivial = a fault fired or positions permuted (all runs of the fault arm); distinct = distinct event-log digests.".into(),
+        rule: "fault-free arm, enumerated completely: for trees of 2, 4, 8 and 16 leaves EVERY non-empty position set (3 + 15 + 255 + 65535 per hasher; quick: 2 hashers, thorough: all 6), half of the runs with a taped permutation of the position list: prove_batch / verify_batch / get_root, claimed leaves in list order, into_paths equal to the single openings (each verified), from_paths back to the batch opening. Fault arm, sampled: trees of depth 1..10, 1..255 positions with adjacency patterns (siblings, cousins, all-left, right edge), sorted or not, then one fault on the opening or the position list in transit (17 kinds, incl. 1..768 surplus nodes at the end of a node vector and surplus claimed leaves without positions; a changed leaf or node is either another digest or the same digest with a single bit flipped at any byte, incl. the coordinated 'one more position with an arbitrary claimed leaf'); the same arm also runs in the overflow-checking build inside an isolated worker. Oracle: Ok => every claimed leaf at a queried in-range position equals the committed leaf and the shape is the honest one; never a panic. Scheduled-construction arm (concurrent build, isolated worker): trees of 1024..8192 leaves built by MerkleTree::new under a simulator-chosen pool size (1..64) and task schedule; the root must equal the level-by-level merge of the leaves and the tree's single and batch openings must verify against it. Non-trivial = a fault fired or positions permuted (all runs of the fault arm); distinct = distinct event-log digests.".into(),
         interleaving_measure: "distinct (tree, position list, fault) histories".into(),
         real: vec!["crypto::MerkleTree (new, prove, prove_batch, verify, verify_batch)", "crypto::BatchMerkleProof (get_root, into_paths, from_paths)", "all six hashers"],
         stub: vec!["nothing in the serial arms; rayon (replaced by SimRayon) in the scheduled-construction arm"],
